@@ -2,9 +2,12 @@
 EXTENDS FogWalk, Json, TLCExt
 KWalk == { <<>>, <<0,0>>, <<0,1>>, <<1,0>>, <<0,0,0,0>>, <<0,0,0,1>> }
 KWalk2 == { <<0,0>>, <<0,1>>, <<0,0,0,0>>, <<0,0,0,1>>, <<0,1,1,1>>, <<0,1,1,2>>, <<0,2,0,0>> }
+KWalkB == { <<0,0>>, <<0,1>> }
 VWalk == { [tag |-> 97, len |-> 1], [tag |-> 200, len |-> 33] }
 VLongOnly == { [tag |-> 200, len |-> 33], [tag |-> 201, len |-> 34] }
 Both == {TRUE, FALSE}
+NoWalkFeatures == {}
+AllWalkFeatures == {"batch", "rewrite"}
 OnlyT == {TRUE}
 OnlyF == {FALSE}
 View == <<prune, usecache, contents, fog, cache, met, changed, ever, muts>>
